@@ -2,14 +2,13 @@
 """Generates /verif/MANIFEST.json from the table below (kept valid at all times)."""
 import json, sys
 
-CHECKS = {
- # id: (level, technique, text, note, design_ref)
- "C01": ("model_checking",
-         "explicit-state product BFS (real StripBytes/StripStr x reference strip model) to fixpoint over all 256 bytes; exhaustive chunk enumeration from every reachable state",
-         "Every reachable adapter state x every byte is compared with the VT/UTF-8 reference mask (search closes: inputs of any length byte-at-a-time); every chunk of <= n class-representative symbols from every class-reachable state through strip_next, strip_bytes, strip_str, StripStream and AutoStream::never. Exhaustive, not sampled.",
-         "Reference model M-STRIP (vmodel) is my transcription of Williams' parser + RFC 3629; malformed UTF-8 high bytes are unconstrained; chunk sweeps rely on the byte-class alphabet (computed from the real table).",
-         "5/C01"),
-}
+import glob
+CHECKS = {}
+ENGINE = {}
+for f in sorted(glob.glob("/verif/tools/manifest.d/C*.json")):
+    d = json.load(open(f))
+    CHECKS[d["property_id"]] = (d["level"], d["technique"], d["text"], d["note"], d["design_ref"])
+    ENGINE[d["property_id"]] = d.get("engine", "vexplore")
 
 NOT_YET = {}
 
@@ -25,7 +24,7 @@ def main():
             "thorough_cmd": f"./check {pid} --tier thorough",
             "evidence_file": f"/verif/evidence/{pid}.json",
             "replay_cmd_template": f"./check {pid} --replay {{path}}",
-            "engine": "vexplore",
+            "engine": ENGINE[pid],
             "level_claimed": {"category": level, "text": text, "design_ref": f"DESIGN.md section {ref}"},
             "level_note": note,
             "technique": tech,
